@@ -36,7 +36,8 @@ bool SPxSolverBase<R>::readBasisFile(
    const NameSet* rowNames,
    const NameSet* colNames)
 {
-   spxifstream file(filename);
+   spxifstream file;
+   spxOpenInputFile(file, filename);
 
    if(!file)
       return false;
